@@ -336,11 +336,17 @@ func c17UpdateRandom(c *Ctx) {
 		if _, err := semver.NewConstraint(pc); err != nil && r.Chance(2, 3) {
 			pc = ">=" + fmt.Sprintf("%d.%d.0", r.Intn(2), r.Intn(3))
 		}
+		if r.Chance(1, 2) { // wide constraints, so that several parents still leave candidates
+			pc = Pick(r, []string{"*", ">=0.0.0", ">=0.1.0", "<3.0.0", ">=0.0.0-0", "<2.0.0", ">=1.0.0", "<=2.1.0"})
+		}
 		s.Parents = append(s.Parents, pc)
 	}
 	if r.Chance(1, 15) { // all parents pin the same digest
 		for i := range s.Parents {
 			s.Parents[i] = c17DigestA
+		}
+		if len(s.Parents) > 1 && r.Chance(1, 3) { // ... or two different ones
+			s.Parents[len(s.Parents)-1] = c17DigestB
 		}
 	}
 	s.Installed = c17GenVersion(r)
